@@ -453,6 +453,10 @@ def pf_mark(c):
     c.ob('frame-other-assets-untouched', snap1.same_position(snap0, w), props=['C02', 'C15'])
     if ro != 'ok':
         c.ob('unchanged-on-raise/holdings-unchanged(a)', snap1.same_position(snap0, a, ACCT + ['current_price']), props=['C15'])
+        # a NEGATIVE mark (the refusal the statement names) is turned away by the portfolio before the holding is touched at all:
+        # not even the holding's last-mark time moves (a later valid mark would otherwise be refused as stale)
+        c.ob('unchanged-on-raise/negative-mark-leaves-the-last-mark-time(a)',
+             IMPLIES(AND(LT(m, 0), snap0.held(a)), EQ(snap1.field('current_dt', a), snap0.field('current_dt', a))), props=['C15'])
         return
     c.ob('quantities-and-accounting-untouched', snap1.same_position(snap0, a, ACCT), props=['C02', 'C03'])
     c.ob('held-asset-marked-at-price', IMPLIES(snap0.held(a), EQ(snap1.field('current_price', a), m)), props=['C02'])
